@@ -202,6 +202,18 @@ func (sc *Scope) evalVal(e *SExpr) Val {
 		if t, ok := sc.bound[e.Name]; ok {
 			return Val{T: t}
 		}
+		if strings.HasPrefix(e.Name, "set_") || strings.HasPrefix(e.Name, "pos_") {
+			if vw, ok := sc.ex.views[e.Name[4:]]; ok {
+				c := vw.set
+				if e.Name[:4] == "pos_" {
+					c = vw.pos
+				}
+				if t, live := sc.st[c]; live {
+					return Val{T: t}
+				}
+				sc.errorf(e, "ghost view not available in this state")
+			}
+		}
 		if v, ok := sc.names[e.Name]; ok {
 			if v.Poison != "" {
 				sc.errorf(e, "%s is not defined on this path (%s)", e.Name, v.Poison)
@@ -498,6 +510,13 @@ func (sc *Scope) call(e *SExpr) Term {
 			sc.errorf(e, "hasKey of %s", m.Sort)
 		}
 		return Select(FieldOf(m, 0), sc.evalWant(e.Args[1], m.Sort.Key))
+	case "mget":
+		// raw map read (the stored value array at the key, whatever the domain says): ite-free, usable in triggers
+		m := sc.eval(e.Args[0])
+		if m.Sort.Role != "map" {
+			sc.errorf(e, "mget of %s", m.Sort)
+		}
+		return Select(mpVal(m), sc.evalWant(e.Args[1], m.Sort.Key))
 	case "isNil":
 		v := sc.evalVal(e.Args[0])
 		if v.IsPtr && !v.LValue {
@@ -740,7 +759,12 @@ func (ex *Exec) needPrelude(name string) {
 	vc.prelude[name] = true
 	var data []byte
 	var err error
-	for _, cand := range []string{name + "." + vc.Mode + ".smt2", name + ".smt2"} {
+	cands := []string{name + "." + vc.Mode + ".smt2"}
+	if vc.Mode == "real" {
+		cands = append(cands, name+".int.smt2") // only int64 ordinates are relaxed to reals; other integers stay integers
+	}
+	cands = append(cands, name+".smt2")
+	for _, cand := range cands {
 		data, err = os.ReadFile(filepath.Join(ex.P.SpecDir, cand))
 		if err == nil {
 			break
